@@ -13,12 +13,16 @@ import (
 	"fmt"
 	"go/token"
 	"go/types"
+	"os"
 	"runtime"
+	"runtime/debug"
 	"slices"
 	"strings"
 
 	"golang.org/x/tools/go/ssa"
 )
+
+var debugPanics = os.Getenv("GOSX_DEBUG") != ""
 
 type continuation int
 
@@ -518,6 +522,9 @@ func runFrame(fr *frame) {
 		}
 		c := fr.i.ctx
 		if !c.panicking {
+			if debugPanics {
+				fmt.Fprintf(os.Stderr, "PANIC in %s: %v\n%s\n", fr.fn, e, debug.Stack())
+			}
 			c.panicking = true
 			c.panicSite = fr.fn.String()
 			c.panicStack = fr.stack()
